@@ -62,6 +62,10 @@ class TemplateGen:
             if r < 0.58:
                 return rng.choice([None, 0, "", (), [], False, 0.0, -0.0, b"", M.Keyword(""), M.String(""), M.Expression(),
                                    M.Integer(0), M.Float(0.0), 0j])
+            if r < 0.66:
+                return rng.choice([lambda: {1, 2, 3}, lambda: {"a", "b"}, lambda: set(), lambda: {5}, lambda: {"k": 9},
+                                   lambda: {}, lambda: {2: [1], "z": None}, lambda: {("a", 2): 0, 7: 7, "": ""},
+                                   lambda: {None, "x", 12, (1, 2)}])()
             if r < 0.72:
                 return self.vg.tree(rng.choice([1, 2]))   # a model: sequences splice, atoms mostly do not
             if r < 0.80:
@@ -80,19 +84,56 @@ class TemplateGen:
                 return complex(qc.from_bits(qc.gen_float_bits(rng)), qc.from_bits(qc.gen_float_bits(rng)))
             if c < 0.86:
                 return rng.choice(qc.TEXTS)
-            if c < 0.92:
+            if c < 0.90:
                 return bytes(rng.randrange(256) for _ in range(rng.choice([0, 1, 3])))
+            if c < 0.95:
+                return rng.choice([lambda: {3, 4}, lambda: {"k": [1, 2]}, lambda: set(), lambda: {}, lambda: {"p": None, 2: "two"}])()
             return qc.Opaque(rng.randrange(100))
         if r < 0.80:
             return [self.value(depth - 1) for _ in range(rng.choice([0, 1, 2, 3]))]
         return tuple(self.value(depth - 1) for _ in range(rng.choice([0, 1, 2])))
 
+    HASHABLE = ["k", "p", "", 2, 3, 7, -4, None, ("a", 2), (), b"x", "long key"]
+
+    def member(self):
+        """a form whose value can be a set member / dict key: a call of g returning a hashable, or a literal"""
+        rng, M = self.rng, self.M
+        if rng.random() < 0.55:
+            i = len(self.table)
+            v = rng.choice(self.HASHABLE)
+            self.objs[i] = v
+            self.table[i] = ("V", qc.dump(v))
+            return M.Expression([M.Symbol("g"), M.Integer(i)])
+        return rng.choice([M.String("k"), M.String("p"), M.Integer(2), M.Integer(7), M.Symbol("None"), M.String(""),
+                           M.Bytes(b"x"), M.Integer(-4)])
+
+    def display(self):
+        """a literal collection display: list / tuple with repeats, set of repeated members, dict with repeated keys"""
+        rng, M = self.rng, self.M
+        kind = rng.choice(["list", "tuple", "set", "set", "dict", "dict"])
+        if kind in ("list", "tuple"):
+            items = []
+            for _ in range(rng.choice([0, 1, 2, 3])):
+                items.append(rng.choice(items) if items and rng.random() < 0.4 else
+                             self.fresh(False) if rng.random() < 0.6 else self.member())
+            return (M.List if kind == "list" else M.Tuple)(items)
+        if kind == "set":
+            return M.Set([self.member()] * rng.choice([0, 1, 2, 3, 3]))
+        keys, items = [], []
+        for _ in range(rng.choice([0, 1, 1, 2, 3])):
+            k = rng.choice(keys) if keys and rng.random() < 0.3 else self.member()
+            keys.append(k)
+            items += [k, self.fresh(False) if rng.random() < 0.6 else self.member()]
+        return M.Dict(items)
+
     def arg(self, splice):
         """the form inside an unquote: mostly a call of g, sometimes a literal form of the modelled fragment"""
         rng, M = self.rng, self.M
         r = rng.random()
-        if r < 0.72:
+        if r < 0.58:
             return self.fresh(splice)
+        if r < 0.72:
+            return self.display()
         if r < 0.80:
             return M.List([self.fresh(False) if rng.random() < 0.6 else self.g.integer() for _ in range(rng.choice([0, 1, 2, 3]))])
         if r < 0.85:
@@ -156,6 +197,11 @@ CORPUS = [
     ("{~(g 0) ~@(g 1)}", {0: "k", 1: ("v", "w", "x")}),
     ("#(1-0j ~(g 0))", {0: complex(1, -0.0)}),
     ("(a ~[(g 0) 2] ~(or (g 1) [9]) ~5 ~\"s\" ~:k ~None ~True)", {0: 1, 1: 0}),
+    ("(a ~@{\"k\" (g 0)} b)", {0: 5}),
+    ("[a ~@#{(g 0) (g 0) (g 0)} b]", {0: 5}),
+    ("(a `(b ~~@{\"k\" (g 0)}))", {0: 5}),
+    ("(a ~@(g 0) ~@(g 1) b)", {0: {"k": 9}, 1: {7}}),
+    ("(a ~@{\"k\" 1 \"k\" 2 \"p\" (g 0)} ~@#(1 1 (g 0)) ~{\"k\" (g 0)} ~#{2 2})", {0: 5}),
 ]
 
 
@@ -178,7 +224,7 @@ def negzero_matcher(rec, params):
             return True
         if e[0] == o[0] == "VSeq" and e[1] == o[1] and len(e[2]) == len(o[2]):
             return all(same(a, b) for a, b in zip(e[2], o[2]))
-        if e[0] == o[0] and e[0] in ("PList", "PTuple") and len(e[1]) == len(o[1]):
+        if e[0] == o[0] and e[0] in ("PList", "PTuple", "PSet", "PDict") and len(e[1]) == len(o[1]):
             return all(same(a, b) for a, b in zip(e[1], o[1]))
         return False
     return same(exp, obs) and hit[0]
@@ -227,7 +273,8 @@ def run(chk):
                 "incl. FString/FComponent, nested quasiquotes up to 3 levels with singly (literal) and doubly (active) "
                 "unquoted forms, malformed unquotes; unquoted forms are calls (g i) of a logging function or literal "
                 "forms; values: models, ints, bools, None, floats by bits, complex, str, bytes, nested lists/tuples, "
-                "opaque objects, falsy values and non-iterables for splices, raising calls; non-trivial = distinct "
+                "opaque objects, sets and dicts, falsy values and non-iterables for splices, raising calls; unquote operands also "
+                "literal list / tuple / set / dict displays with repeated members, repeated keys and calls inside; non-trivial = distinct "
                 "template with >= 1 active unquote")
     try:
         binary = qc.build_driver()
@@ -284,9 +331,11 @@ def run(chk):
         # ---- tie T3: rendered form, value + trace, as_model
         if mo["render"] != rr:
             chk.disagree("Quote.Model.render (LNat 0) vs render_quoted_form(level=0)", inp, mo["render"], rr)
-        uncovered = mo["run"][0] == ("Err", "EUnmodelled") and cls.endswith("(outside)")
+        uncovered = (cls == "unquote-of-unpack-form(outside)"
+                     or (mo["run"][0] == ("Err", "EUnmodelled") and cls.endswith("(outside)")))
         if uncovered:
-            # an unpack-iterable / unpack-mapping form evaluated on its own: no meaning as an expression, not modelled
+            # an unpack-iterable / unpack-mapping form as the operand of an unquote: no meaning as an expression,
+            # compile-time behaviour of such forms is not modelled (the rendered form is still compared)
             chk.count("outside-and-not-modelled")
         else:
             if mo["run"] != (res, trace):
